@@ -56,8 +56,6 @@ def main(ctx, order=ORDER, pid=PID, tags=TAGS, maxl=MAXL, props="C02", oracle=No
     scases = []
     for LA in range(maxl + 1):
         for LB in range(maxl + 1):
-            if quick and (LA + LB + ctx.seed) % 2 and max(LA, LB) > 1:
-                continue
             # ECP angular momentum below, at and above the basis angular momentum
             scases.append(dc.make_case(srng, LA, LB, dc.BRANCHES[(LA + 2 * LB) % 5] if (LA + LB) % 3 else "distinct", ecpL=[1, 2, 3, 0][(LA + LB) % 4]))
     with ThreadPoolExecutor(16) as ex:
